@@ -39,6 +39,11 @@ impl Bolt11Invoice {
     // lightning_invoice: recovers the payee key from the signature; panics if that fails
     #[verifier::external_body]
     pub fn get_payee_pub_key(&self) -> (r: PublicKey) requires self.sig_ok_spec(), ensures r == self.payee_spec() { unimplemented!() }
+    // lightning_invoice: the key recovered from the signature alone ("only to be used if none was
+    // included in the invoice"): not the explicit payee key when the invoice carries one
+    pub uninterp spec fn recovered_key_spec(&self) -> PublicKey;
+    #[verifier::external_body]
+    pub fn recover_payee_pub_key(&self) -> (r: PublicKey) ensures r == self.recovered_key_spec() { unimplemented!() }
     // returns an env sequence type (mirror of Vec<RouteHint>) whose iterator has a spec'd `find`
     #[verifier::external_body]
     pub fn route_hints(&self) -> (r: HintVec) ensures r.v@ == self.route_hints_spec() { unimplemented!() }
